@@ -25,6 +25,7 @@ type Violation struct {
 	Sched   []int
 	Trace   []string
 	Decis   []int
+	Threads int
 }
 
 type nondetRec struct {
@@ -435,6 +436,7 @@ func (st *State) fail(what string, model []uint64) {
 		}
 	}
 	v.Sched = append([]int{}, st.schedLog...)
+	v.Threads = len(st.threads)
 	for _, e := range st.events {
 		v.Trace = append(v.Trace, fmt.Sprintf("%d:t%d:%s", e.Clock, e.Thread, e.Kind))
 	}
